@@ -454,15 +454,31 @@ theorem allSmemsProp_perm {T sa p : List Nat} {l : Nat} {r1 r2 : List SmemObs} (
   · rintro ⟨o, ho, h1⟩; exact ⟨o, h.mem_iff.mpr ho, h1⟩
 
 include hne hseqs hchk hpat in
-/-- the translated `smems` over `less` / `occ` of the index: no panic, the model's matches over `srcOps` in some order -/
-theorem smems_src_eq (hsz : M sa.length * (pat.length + 2) < 2 ^ 64) (i l : Nat) (hi : i < pat.length) :
+/-- when `pattern[i]` does not occur, the sweep over the translated operations reports nothing (`l ≥ 1`) -/
+theorem smems_src_dead (hsz : M sa.length * (pat.length + 2) < 2 ^ 64) (i l : Nat) (hi : i < pat.length) (hl : 1 ≤ l)
+    (hz : ((srcOps (lessI seqs sa) (occI seqs sa)).initWith i (pat.getD i 0)).size = 0) :
+    SmemModel.smems (srcOps (lessI seqs sa) (occI seqs sa)) pat i l = [] := by
+  have hS := simHyp_src seqs sa pat hne hseqs hchk hpat hsz
+  have hsim := sim_smems (countLaws_cnt (fmdText seqs) pat) hS rfl i l hi
+  have h0 : cnt (fmdText seqs) pat i (i + 1) = 0 := by
+    rw [← hS.size_eq _ _ _ (hS.init i hi).1]; exact hz
+  rw [smems_dead (countLaws_cnt (fmdText seqs) pat) pat rfl hi l hl h0] at hsim
+  generalize SmemModel.smems (srcOps (lessI seqs sa) (occI seqs sa)) pat i l = ms at hsim
+  cases hsim
+  rfl
+
+include hne hseqs hchk hpat in
+/-- the translated `smems` over `less` / `occ` of the index: no panic, the model's matches over `srcOps` in some order
+(`l ≥ 1`: on the dead start only "nothing is reported" is used) -/
+theorem smems_src_eq (hsz : M sa.length * (pat.length + 2) < 2 ^ 64) (i l : Nat) (hi : i < pat.length) (hl : 1 ≤ l) :
     ∃ res, SrcFmdSmems.smems (lessI seqs sa) (occI seqs sa) dnaCompl pat i l = Res.ok res ∧
       res.Perm ((SmemModel.smems (srcOps (lessI seqs sa) (occI seqs sa)) pat i l).map hitT) := by
   have hL : pat.length + 1 < 2 ^ 63 := by
     have h1 : pat.length + 2 ≤ M sa.length * (pat.length + 2) := Nat.le_mul_of_pos_left _ (by unfold M; omega)
     have h2 : 2 * (pat.length + 2) ≤ M sa.length * (pat.length + 2) := Nat.mul_le_mul_right _ (by unfold M; omega)
     omega
-  exact smems_eq_model (safeOps (idxFacts seqs sa) (fun a ha => symOk seqs sa hne hchk a (hpat a ha)) hsz) i l hi hL
+  exact smems_eq_model_of (safeOps (idxFacts seqs sa) (fun a ha => symOk seqs sa hne hchk a (hpat a ha)) hsz) i l hi hL
+    (smems_src_dead seqs sa pat hne hseqs hchk hpat hsz i l hi hl)
 
 include hne hseqs hchk hpat in
 /-- **the translated `smems` returns exactly the supermaximal matches** (on every index whose array passes
@@ -471,7 +487,7 @@ theorem smems_source_correct (hsz : M sa.length * (pat.length + 2) < 2 ^ 64) (i 
     (hl : 1 ≤ l) :
     ∃ res, SrcFmdSmems.smems (lessI seqs sa) (occI seqs sa) dnaCompl pat i l = Res.ok res ∧
       SmemsProp (fmdText seqs) sa pat i l (res.map obsT) := by
-  obtain ⟨res, hres, hperm⟩ := smems_src_eq seqs sa pat hne hseqs hchk hpat hsz i l hi
+  obtain ⟨res, hres, hperm⟩ := smems_src_eq seqs sa pat hne hseqs hchk hpat hsz i l hi hl
   refine ⟨res, hres, smemsProp_perm (hperm.map obsT) ?_⟩
   rw [map_obsT]
   exact (smems_src_prop seqs sa pat hne hseqs hchk hpat hsz i l hi hl).1
@@ -487,7 +503,7 @@ theorem all_smems_source_correct (hsz : M sa.length * (pat.length + 2) < 2 ^ 64)
     omega
   have hok : SmemsOk (lessI seqs sa) (occI seqs sa) (srcOps (lessI seqs sa) (occI seqs sa)) pat l := by
     intro i hi
-    obtain ⟨res, hres, hperm⟩ := smems_src_eq seqs sa pat hne hseqs hchk hpat hsz i l hi
+    obtain ⟨res, hres, hperm⟩ := smems_src_eq seqs sa pat hne hseqs hchk hpat hsz i l hi hl
     refine ⟨res, hres, hperm, fun h hh => ?_⟩
     have := (smems_src_prop seqs sa pat hne hseqs hchk hpat hsz i l hi hl).2 h hh
     have := two63_lt
